@@ -215,4 +215,11 @@ theorem C03_cex_hash_by_type :
     finalFilter false ["ChangeField a", "AddField b", "ChangeField a"] [0] = [1] ∧
     finalFilter true ["ChangeField a", "AddField b", "ChangeField a"] [0] = [1, 2] := by decide
 
+/-- "the last ChangeMeta of a property wins": the optimiser model keeps one table per property
+(`uniqueTogether`, `metaIndexes`), and so does the source - in both passes each property tests, writes
+and reads its own table only (read by the translator on every run) -/
+theorem C03_source_meta_slots : DEvo.Generated.metaSlots =
+    ["unique_together: unique_together", "indexes: model_meta_indexes",
+     "unique_together: unique_together", "indexes: model_meta_indexes"] := by decide
+
 end DEvo.Props.C03
